@@ -443,6 +443,7 @@ func (c *Ctl) Run(o Options, driversDone func() bool) Result {
 		o.MaxSteps = 5000
 	}
 	idleSpins := 0
+	var idleT0 time.Time
 	pollCnt := map[int64]int{}
 	var snap []GInfo
 	isPoll := func(pt string) bool {
@@ -506,7 +507,12 @@ func (c *Ctl) Run(o Options, driversDone func() bool) Result {
 			}
 		}
 		if len(c.gated) == 0 {
-			if len(c.timed) > 0 && idleSpins < 200000 {
+			// only goroutines inside timed waits are left: real time has to pass (bounded by wall-clock time: no timed
+			// wait of the library under the harness lasts longer than a few ms)
+			if len(c.timed) > 0 && (idleSpins == 0 || time.Since(idleT0) < 1500*time.Millisecond) {
+				if idleSpins == 0 {
+					idleT0 = time.Now()
+				}
 				idleSpins++
 				time.Sleep(50 * time.Microsecond)
 				continue
